@@ -140,6 +140,7 @@ ImplUnchangedOthersP == IF First THEN TRUE ELSE \A s \in Slots : s # Target(St.o
 ImplEnumLabelsP == IF First THEN TRUE ELSE
     (St.op[1] = "toenum" /\ St.raised = "" =>
         LET s == St.op[2] r == o[s] out == FromRaw(IsSpin(r.kind), St.out)
+            outB == FromRawB(St.out)
             n == St.slots[s].nvars
             img == {r.map[x] : x \in TrueVars(r) \cap DOMAIN r.map}
         IN /\ TrueVars(r) \subseteq DOMAIN r.map
@@ -147,9 +148,10 @@ ImplEnumLabelsP == IF First THEN TRUE ELSE
            /\ (~St.op[3] => out = Relabel(PolyOf(r.ts), r.map))
            \* a reduced boolean form: labels >= n are ancillas, and every assignment of the model's variables has an
            \* extension over them on which the form takes the model's value (so no label serves both purposes)
-           /\ ((St.op[3] /\ ~IsSpin(r.kind)) =>
-                  \A X \in SUBSET TrueVars(r) : \E A \in SUBSET {z \in VarsOf(out) : z >= n} :
-                      EvalB(out, {r.map[x] : x \in X} \cup A) = EvalB(PolyOf(r.ts), X))
+           \* (spin models: the reduced boolean form of to_qubo(); boolean 1 corresponds to spin -1)
+           /\ (St.op[3] =>
+                  \A X \in SUBSET TrueVars(r) : \E A \in SUBSET {z \in VarsOf(outB) : z >= n} :
+                      EvalB(outB, {r.map[x] : x \in X} \cup A) = Eval(IsSpin(r.kind), PolyOf(r.ts), X))
            \* ancillas created by a reduction (hook H1): strictly above every reported variable, not a mapped label
            /\ \A z \in ToSet(St.cert_z) : z >= n /\ z \notin {r.map[x] : x \in DOMAIN r.map})
 \* a constraint method records a polynomial of its own, getters and info dictionaries are independent objects: the marker
